@@ -17,42 +17,6 @@ def _info(v):
 
 
 # ---- predicates: (violation record) -> bool -------------------------------------
-def vtk_txt_subregions_precision(v):
-    """F23: legacy-ASCII VTK writer keeps ~10 digits of the grid coordinates, the
-    JSON side-car keeps 17; on reading back the subregion check of the mesh
-    refuses the (correct) subregions.  Only this exact mechanism: txt
-    representation, mesh has subregions, reader raised the subregion error."""
-    i = _info(v)
-    return (
-        v.get("monitor") == "C16.roundtrip.loads"
-        and i.get("representation") == "txt"
-        and bool(i.get("has_subregions"))
-        and "ubregion" in str(i.get("exc", ""))
-    )
-
-
-def mesh_copy_transform_revalidation(v):
-    """F29: the copying forms of Mesh.scale/translate/rotate90 (and Field.rotate90)
-    rebuild the mesh through the constructor, which re-validates the separately
-    transformed subregions with the region's 1e-12 comparison tolerance; once the
-    rounding error accumulated by the history (magnified by large factors about
-    far-away points) is no longer small against that tolerance the call raises
-    although the in-place form succeeds.  Only this mechanism: copy form, subregion
-    re-validation error, and the workload's own rounding-error bound for the history
-    is at least 2 % of the region's comparison tolerance (below that bound a failure
-    is a different defect and is reported)."""
-    i = _info(v)
-    w = i.get("what") if isinstance(i.get("what"), dict) else {}
-    return (
-        v.get("monitor") == "C13.step_accepted"
-        and w.get("form") == "copy"
-        and w.get("object") in ("mesh", "field")
-        and "Subregion" in str(i.get("exc", ""))
-        and isinstance(w.get("cond_region"), (int, float))
-        and w["cond_region"] >= 0.02
-    )
-
-
 def explicit_filter_overrides_validity(v):
     """F31: an explicitly passed filter_field replaces the default validity filter
     instead of being combined with it, so an invalid cell whose filter value is
@@ -69,8 +33,6 @@ def explicit_filter_overrides_validity(v):
 
 PREDICATES = {
     "explicit_filter_overrides_validity": explicit_filter_overrides_validity,
-    "mesh_copy_transform_revalidation": mesh_copy_transform_revalidation,
-    "vtk_txt_subregions_precision": vtk_txt_subregions_precision,
 }
 
 
